@@ -323,7 +323,7 @@ static std::string presorted_hash(const std::vector<std::string>& w)
 		if (!parse_kp(kp, k, p)) return "BAD-CASE";
 		v.push_back(mk_ft(k, p));
 	}
-	if (v.empty()) return "BAD-CASE";
+	// an empty table is allowed: the hash array constructor then reads the element before the block
 	std::unique_ptr<FieldTrait[]> tab(new FieldTrait[v.size()]);
 	for (size_t j(0); j < v.size(); ++j) memcpy(&tab[j], &v[j], sizeof(FieldTrait));
 	const FieldTrait_Hash_Array ftha(tab.get(), v.size());
